@@ -40,6 +40,9 @@ def frame_obligations(res, prefixes=None):
         spec = kit_f.OBJECTS.get(s.obj)
         if spec is None:
             continue
+        if spec.get('reads') == 'free' and s.kind != 'write':
+            n -= 1              # only the writers of this object are under contract
+            continue
         allowed = set(spec['history-read']) if s.kind == 'history-read' else spec[s.kind]
         if s.where not in allowed:
             failed.append(('site', '%s of %s in %s (line %d: %s) is not allowed by the frame contract' % (s.kind, s.obj, s.where, s.line, s.text), repr(s)))
@@ -168,9 +171,14 @@ def run(res):
         res.violation('frame obligation fails: ' + text, {'obligation': 'frame:' + site, 'kind': 'failed-frame-obligation', 'witness': witness},
                       no_input=witness is None)
     res.sample({'history': json.loads(next(iter(res.nontrivial))) if res.nontrivial else None})
+    from . import c20_bounded
+    res.coverage['rule'] = ''
+    c20_bounded.web_part(res, ('history-dependence',), 11,
+                         'C12 clause: every request after the first is put again to a fresh server in a fresh process over the same files and must get the same status and body.')
     res.coverage['rule'] = ('histories of 5-8 calls (diff_notebooks, merge_notebooks under random strategy tables, set_notebook_diff_targets, set_notebook_diff_ignores, '
                             'reset_notebook_differ) over notebooks of the grammar (incl. metadata whose value at one path is a list of lists in one notebook and a list of objects in '
-                            'another); every diff/merge result is compared with the same call in a freshly started interpreter configured with the ignore options in force')
+                            'another); every diff/merge result is compared with the same call in a freshly started interpreter configured with the ignore options in force.'
+                            + res.coverage['rule'])
     res.coverage['explanation'] = ('Proof part: %d frame obligations (every module-level mutable object, every write / default-insert / history-dependent read site, every mutable default '
                                    'argument in the current sources is covered by the sidecar frame contract contracts/kit_f.py), %d discharged. Bounded part: %d calls inside random '
                                    'histories compared with fresh interpreters.' % (res.obligations, res.discharged, res.evaluations))
